@@ -35,11 +35,64 @@ pub(crate) fn decode(
     reference: &[u8],
     data: &[u8],
 ) -> Result<Vec<Vec<u8>>, Box<dyn std::error::Error + Send + Sync>> {
+    // `bitfield_rle::decode` trusts its input: it indexes past the end on a truncated varint or
+    // literal and allocates whatever size the stream claims. `data` comes off the network, so
+    // make sure it is a well-formed stream of a sane size before handing it over.
+    check_rle_stream(data)?;
+
     // decode the RLE encoding first
     let buf = bitfield_rle::decode(data)?;
 
     // decode the delta-encoding
     delta_decode(reference, &buf)
+}
+
+/// The largest buffer a single packet may decode to: every one of the at most 129 pending inputs
+/// of an endpoint at its maximum length (`u16::MAX` bytes plus the length prefix), rounded up.
+const MAX_DECODED_LEN: usize = 1 << 24;
+
+/// Validates the run-length encoding of `data` without decoding it: every varint and literal must
+/// lie completely inside `data` and the decoded size must not exceed [`MAX_DECODED_LEN`].
+fn check_rle_stream(data: &[u8]) -> Result<(), Box<dyn std::error::Error + Send + Sync>> {
+    let mut offset = 0;
+    let mut decoded_len: usize = 0;
+
+    while offset < data.len() {
+        // a varint of at most 5 bytes (35 bits) is more than enough for MAX_DECODED_LEN
+        let mut value: u64 = 0;
+        let mut shift = 0;
+        loop {
+            let Some(&byte) = data.get(offset) else {
+                return Err("truncated varint in RLE stream".into());
+            };
+            if shift > 28 {
+                return Err("oversized varint in RLE stream".into());
+            }
+            offset += 1;
+            value |= u64::from(byte & 0x7f) << shift;
+            shift += 7;
+            if byte & 0x80 == 0 {
+                break;
+            }
+        }
+
+        // lowest bit set: a run of `value >> 2` equal bytes, otherwise `value >> 1` literal bytes
+        let is_run = value & 1 == 1;
+        let len = if is_run { value >> 2 } else { value >> 1 } as usize;
+
+        if len > MAX_DECODED_LEN - decoded_len {
+            return Err("RLE stream decodes to an unreasonable size".into());
+        }
+        decoded_len += len;
+        if !is_run {
+            if len > data.len() - offset {
+                return Err("truncated literal in RLE stream".into());
+            }
+            offset += len;
+        }
+    }
+
+    Ok(())
 }
 
 fn delta_decode(
